@@ -367,6 +367,21 @@ func (c *gctx) objectNode(i int, self string, depth int, top bool, label string)
 			np := append([]ref.SProp{}, n.Props[:pos]...)
 			np = append(np, ref.SProp{Key: kn, KeyTok: kn, Shortcut: true, Val: val})
 			n.Props = append(np, n.Props[pos:]...)
+			if k == 0 && !used[`"`+kn+`"`] && c.draw(0, 3, label+"LiteralTwin") == 0 {
+				// a property whose NAME is spelled like the shortcut ("@k": ...): an ordinary key, with
+				// requirements of its own
+				tv := &ref.SNode{Kind: ref.SLit, Lit: ref.KNumber, Tok: "7"}
+				if c.draw(0, 1, label+"LiteralTwinOptional") == 0 {
+					tv.Rules = append(tv.Rules, BoolRule("optional", true))
+				}
+				tp := ref.SProp{Key: kn, KeyTok: `"` + kn + `"`, Val: tv}
+				used[tp.KeyTok] = true
+				if c.draw(0, 1, label+"LiteralTwinFirst") == 0 {
+					n.Props = append([]ref.SProp{tp}, n.Props...)
+				} else {
+					n.Props = append(n.Props, tp)
+				}
+			}
 		}
 	}
 	return n
@@ -552,8 +567,15 @@ func (c *gctx) orNode(i int, label string) *ref.SNode {
 						rules[0], rules[1] = rules[1], rules[0]
 					}
 				}
+				if nl := c.draw(0, 3, fmt.Sprint(label, "SetNullable", k)); nl <= 1 {
+					// nullable written out on the object alternative (true: null is one more member of the union)
+					rules = append(rules, TokRule("nullable", []string{"true", "false"}[nl]))
+					if c.draw(0, 1, fmt.Sprint(label, "SetNullableFirst", k)) == 0 {
+						rules[0], rules[len(rules)-1] = rules[len(rules)-1], rules[0]
+					}
+				}
 				items = append(items, ref.OrItem{Rules: rules})
-				for _, d := range []string{`{}`, `{"z":1}`, `{"z":"s"}`, `{"y":null,"z":2}`, `{"z":true}`, `{"a":{}}`} {
+				for _, d := range []string{`{}`, `{"z":1}`, `{"z":"s"}`, `{"y":null,"z":2}`, `{"z":true}`, `{"a":{}}`, `null`} {
 					v, _ := ref.Parse([]byte(d))
 					c.setHints[&rules[0]] = append(c.setHints[&rules[0]], v)
 				}
